@@ -61,8 +61,25 @@ class FakeSock:
 
 
 class FakeReader:
-    def __init__(self, data, eof_at=None):
+    """asyncio.StreamReader contract: readexactly(n) -> exactly n bytes or IncompleteReadError; read(n) -> between 1 and n of the
+    bytes available (solver-chosen, a TCP segment boundary can be anywhere) or b"" at EOF"""
+
+    def __init__(self, data, eof_at=None, c=None):
         self.data, self.pos, self.end = data, 0, len(data) if eof_at is None else eof_at
+        self.c, self.k = c, 0
+
+    async def read(self, n=-1):
+        pending = self.end - self.pos
+        if pending <= 0:
+            return b""
+        hi = pending if n < 0 else min(n, pending)
+        k = hi
+        if self.c is not None and hi > 1 and self.k < 3:
+            k = self.c.concretize(self.c.int(f"rchunk{self.k}", 1, hi))
+        self.k += 1
+        out = self.data[self.pos : self.pos + k]
+        self.pos += k
+        return out
 
     async def readexactly(self, n):
         if self.end - self.pos < n:
@@ -178,7 +195,7 @@ def eof_sync(c, kind, extra, nsym):
 def whole_async(c, kind, extra):
     cls, data = _reply(c, kind, extra)
     client = rc.AsyncRpcClient.__new__(rc.AsyncRpcClient)
-    client._auth, client._sign_header, client._reader, client._writer = None, False, FakeReader(data), FakeWriter()
+    client._auth, client._sign_header, client._reader, client._writer = None, False, FakeReader(data, c=c), FakeWriter()
     if kind == "fault":
         try:
             c.call_async(client._send_pdu, _request_pdu(), cls)
@@ -203,6 +220,6 @@ def eof_async(c, kind, extra):
     cls, data = _reply(c, kind, extra)
     e = c.concretize(c.int("eof_at", 0, len(data) - 1))
     client = rc.AsyncRpcClient.__new__(rc.AsyncRpcClient)
-    client._auth, client._sign_header, client._reader, client._writer = None, False, FakeReader(data, eof_at=e), FakeWriter()
+    client._auth, client._sign_header, client._reader, client._writer = None, False, FakeReader(data, eof_at=e, c=c), FakeWriter()
     c.call_async(client._send_pdu, _request_pdu(), cls)
     c.check(False, "async: a PDU was returned although the connection ended early")
